@@ -106,10 +106,17 @@ def cli(c, build_dir, project_root, laze_bin):
            [hopt(c.get("local"))] + lst(c.get("select", [])) + lst(c.get("disable", [])) + lst(c.get("define", [])) + part
 
 def gen_request(files, c, build_dir, project_root, laze_bin):
+    files = subst_root(files, project_root)
     return " ".join(["gen"] + tree(files) + cli(c, build_dir, project_root, laze_bin))
+
+def subst_root(files, root):
+    """file names and strings may mention the absolute scratch directory as @ABSROOT@"""
+    txt = json.dumps(files)
+    return json.loads(txt.replace("@ABSROOT@", root)) if "@ABSROOT@" in txt else files
 
 # ---------------------------------------------------------------- YAML rendering
 def render(files, root):
+    files = subst_root(files, root)
     for name, docs in files.items():
         path = os.path.join(root, name)
         os.makedirs(os.path.dirname(path), exist_ok=True)
